@@ -19,22 +19,14 @@ stream-open / stanza / stream-close events: `events` removes them on both sides 
 
 All theorems quantify over every parser, every stream and every chunk list of any length.
 
-## When fixes/C03-utf8-stateful-decode.diff is applied to the library
+## History
 
-1. in `Qx/Model/C03Framing.lean` change the one line `def feedBytesCode … := feedBytesPerChunk P` to
-   `… := feedBytesStateful P` (the driver follows; the correspondence run then compares the patched code with the
-   stateful model — validated once against a patched build: 0 mismatches on all lines, while the per-chunk model
-   mismatches);
-2. here, `C03_defect_split_in_multibyte`, `C03_defect_zwnbsp_at_read_start`, the two `example`s recording today's
-   corrupted output on the witnesses (now false: `decide` reports it) and `framing_bytes_split_independent_partial`
-   (superseded) stop compiling — this was tried: exactly these five fail — delete them and add
-
-       theorem framing_bytes_split_independent (P) (items) (hP : PrefixOracle P items) (chunks) (cps)
-           (hvalid : decode? chunks.flatten = some cps) (htext : toChars cps = textOf items) :
-           events (runBytes (feedBytesCode P) chunks) = events (runBytes (feedBytesCode P) [chunks.flatten]) :=
-         (framing_bytes_split_independent_stateful P items hP chunks cps hvalid htext).1
-
-   which is the full byte-level property about the code; everything else stays.
+Until repo commit 49994ec every read was decoded on its own (`feedBytesPerChunk`); this file then proved the
+negation of the byte-level property (`C03_defect_split_in_multibyte`: `<m>ñ</m>` cut between C3 and B1 arrived as
+two U+FFFD; `C03_defect_zwnbsp_at_read_start`: a read starting with U+FEFF lost it).  The code now keeps a decoder
+for the lifetime of the stream (`feedBytesCode = feedBytesStateful`), the old witnesses are kept below as
+examples of the CORRECT behaviour (and first in the harness corpus), and the full property is
+`framing_bytes_split_independent`.
 -/
 namespace Qx.C03
 open Qx.Utf8
@@ -64,7 +56,7 @@ theorem utf8_stateful_chunk_indep (chunks : List Bytes) :
     Dec.decodeChunks chunks = decodeLossy chunks.flatten :=
   U8.stateful_chunk_indep chunks
 
-/-- **Per-read decoding (today's code) agrees with one-shot decoding when every chunk boundary is a character
+/-- **Per-read decoding (the code before 49994ec) agrees with one-shot decoding when every chunk boundary is a character
 boundary**: if every chunk is well-formed UTF-8 on its own (= holds whole characters only), contains no NUL
 byte and does not start with a BOM (`U8.Clean`; the last two are quirks of `QString::fromUtf8(QByteArray)`
 which cuts at NUL and drops a BOM at offset 0 of every call), then decoding chunk by chunk equals decoding the
@@ -85,80 +77,54 @@ theorem utf8_perchunk_ne_when_cut_inside_char :
     qtFromUtf8 ([[0xC3], [0xB1]] : List Bytes).flatten = [0xF1] := by
   decide
 
-/-- **Byte level, today's code, partial.**  For a stream whose bytes are the UTF-8 form of `textOf items`:
-if no read boundary falls inside a multi-byte character (every chunk `U8.Clean`), the events are the same as
-for the one-read run.  Missing for the full property: chunk lists that cut a character — there the statement is
-FALSE for today's code, see `C03_defect_split_in_multibyte`. -/
-theorem framing_bytes_split_independent_partial (P : Parser E) (items : List (Item E))
-    (hP : PrefixOracle P items) (chunks : List Bytes)
-    (htext : toChars (qtFromUtf8 chunks.flatten) = textOf items)
-    (hb : ∀ c ∈ chunks, U8.Clean c) :
-    events (runBytes (feedBytesCode P) chunks) = events (runBytes (feedBytesCode P) [chunks.flatten]) := by
-  unfold runBytes feedBytesCode
-  rw [runWith_perChunk P chunks binit, runWith_perChunk P [chunks.flatten] binit]
-  show events (run P init _).2 = events (run P init _).2
-  rw [run_good hP _ init _ (by
-        rw [perChunk_texts_flatten, utf8_perchunk_eq_iff_boundaries_partial chunks hb, htext]
-        exact good_init items),
-      run_good hP _ init _ (by
-        simp only [List.map_cons, List.map_nil, List.flatten_cons, List.flatten_nil, List.append_nil, htext]
-        exact good_init items)]
-
-/-- **Byte level, with the fix (decoder state kept across reads): the FULL property.**  For every stream whose
-bytes are well-formed UTF-8 for `textOf items` and EVERY split of the bytes into reads — including inside a
-multi-byte character — the events equal those of the one-read run (and are exactly the stream's events).
-This is the theorem about `feedBytesCode` once the one-line switch in the model is flipped. -/
+/-- **Byte level, decoder state kept across reads (`feedBytesStateful`).**  For every stream whose bytes are
+well-formed UTF-8 for `textOf items` (optionally preceded by a byte order mark, which is not content) and EVERY
+split of the bytes into reads — including inside a multi-byte character, inside the BOM, empty reads — the events
+equal those of the one-read run and are exactly the stream's events. -/
 theorem framing_bytes_split_independent_stateful (P : Parser E) (items : List (Item E))
     (hP : PrefixOracle P items) (chunks : List Bytes) (cps : List Nat)
-    (hvalid : decode? chunks.flatten = some cps) (htext : toChars cps = textOf items) :
+    (hvalid : decode? chunks.flatten = some cps) (htext : toChars (dropBom1 cps) = textOf items) :
     events (runBytes (feedBytesStateful P) chunks) = events (runBytes (feedBytesStateful P) [chunks.flatten])
     ∧ events (runBytes (feedBytesStateful P) chunks) = events (evsOf items) := by
   unfold runBytes
   rw [runWith_stateful P chunks binit, runWith_stateful P [chunks.flatten] binit]
-  show events (run P init (decTexts {} chunks)).2 = events (run P init (decTexts {} [chunks.flatten])).2
-    ∧ events (run P init (decTexts {} chunks)).2 = events (evsOf items)
-  have h1 := run_good hP (decTexts {} chunks) init _ (by
+  show events (run P init (decTexts false {} chunks)).2 = events (run P init (decTexts false {} [chunks.flatten])).2
+    ∧ events (run P init (decTexts false {} chunks)).2 = events (evsOf items)
+  have h1 := run_good hP (decTexts false {} chunks) init _ (by
     have := decTexts_flatten_valid chunks cps hvalid
     simp only [Dec.init] at this
     rw [this, htext]; exact good_init items)
-  have h2 := run_good hP (decTexts {} [chunks.flatten]) init _ (by
+  have h2 := run_good hP (decTexts false {} [chunks.flatten]) init _ (by
     have := decTexts_flatten_valid [chunks.flatten] cps (by simpa using hvalid)
     simp only [Dec.init] at this
     rw [this, htext]; exact good_init items)
   exact ⟨by rw [h1]; exact h2.symm, h1⟩
 
-/-- the toy stream `<stream:stream><m>ñ</m>` used as witness -/
+/-- **The property, byte level, about the code as it is (`feedBytesCode`).**  For any valid stream — bytes that are
+well-formed UTF-8 for the text of items satisfying the parser hypothesis — and ANY way the transport splits the
+bytes into reads (inside a tag, an attribute value, an entity, a multi-byte character), the receiver delivers
+exactly the same stream-open, stanza and stream-close events, with identical content, as when everything arrives
+in one read; and these are exactly the events of the stream: nothing lost, duplicated, reordered or altered.
+
+Caveat (stated, not hidden): the decoder is modelled by the ideal incremental decoder `Utf8.Dec`.  Qt 5's
+`QTextDecoder` coincides with it on well-formed UTF-8 (measured on every read of every split in the correspondence
+run) but is itself not chunk independent on MALFORMED input; malformed UTF-8 is not a valid XMPP stream and is
+outside this theorem (`hvalid`). -/
+theorem framing_bytes_split_independent (P : Parser E) (items : List (Item E))
+    (hP : PrefixOracle P items) (chunks : List Bytes) (cps : List Nat)
+    (hvalid : decode? chunks.flatten = some cps) (htext : toChars (dropBom1 cps) = textOf items) :
+    events (runBytes (feedBytesCode P) chunks) = events (runBytes (feedBytesCode P) [chunks.flatten])
+    ∧ events (runBytes (feedBytesCode P) chunks) = events (evsOf items) :=
+  framing_bytes_split_independent_stateful P items hP chunks cps hvalid htext
+
+/-! ### The former defect witnesses, now delivered correctly -/
+
+/-- the toy stream `<stream:stream><m>ñ</m>` … -/
 def defectItems : List (Item (List Char)) := [toyHdr, toyStanza "<m>ñ</m>" "m:ñ"]
-/-- its bytes, cut between the two bytes C3 | B1 of `ñ` -/
+/-- … and its bytes, cut between the two bytes C3 | B1 of `ñ` -/
 def defectChunks : List Bytes :=
   [ [0x3c,0x73,0x74,0x72,0x65,0x61,0x6d,0x3a,0x73,0x74,0x72,0x65,0x61,0x6d,0x3e, 0x3c,0x6d,0x3e, 0xc3],
     [0xb1, 0x3c,0x2f,0x6d,0x3e] ]
-
-/-- **Defect of today's code.**  The full byte-level property (the statement of
-`framing_bytes_split_independent_stateful`, about `feedBytesCode`) is FALSE: witness `<stream:stream><m>ñ</m>`
-with the read boundary between the bytes C3 and B1 of `ñ`.  Each read is decoded on its own, so the stanza is
-delivered as `<m>` U+FFFD U+FFFD `</m>` instead of `<m>ñ</m>` (next example).  When the one-line switch
-`feedBytesCode := feedBytesStateful` is made this theorem stops compiling and is to be deleted;
-`framing_bytes_split_independent_stateful` then is the property. -/
-theorem C03_defect_split_in_multibyte :
-    ¬ ∀ (E : Type) (P : Parser E) (items : List (Item E)) (chunks : List Bytes) (cps : List Nat),
-        PrefixOracle P items → decode? chunks.flatten = some cps → toChars cps = textOf items →
-        events (runBytes (feedBytesCode P) chunks) = events (runBytes (feedBytesCode P) [chunks.flatten]) := by
-  intro h
-  have h1 := h (List Char) toyP defectItems defectChunks
-    (decodeLossy defectChunks.flatten)
-    (checkOracle_sound _ _ (by decide +kernel)) (by decide +kernel) (by decide +kernel)
-  revert h1
-  decide +kernel
-
-/-- what exactly goes wrong on the witness: the stanza arrives, but altered -/
-example : events (runBytes (feedBytesCode toyP) defectChunks)
-      = [.streamOpen "stream".toList, .stanza "m:\uFFFD\uFFFD".toList]
-    ∧ events (runBytes (feedBytesCode toyP) [defectChunks.flatten])
-      = [.streamOpen "stream".toList, .stanza "m:ñ".toList]
-    ∧ events (runBytes (feedBytesStateful toyP) defectChunks)
-      = [.streamOpen "stream".toList, .stanza "m:ñ".toList] := by
-  decide +kernel
 
 /-- the toy stream `<stream:stream><m>` U+FEFF `x</m>` and its bytes cut right before EF BB BF -/
 def zwnbspItems : List (Item (List Char)) := [toyHdr, toyStanza "<m>\uFEFFx</m>" "m:\uFEFFx"]
@@ -166,32 +132,26 @@ def zwnbspChunks : List Bytes :=
   [ [0x3c,0x73,0x74,0x72,0x65,0x61,0x6d,0x3a,0x73,0x74,0x72,0x65,0x61,0x6d,0x3e, 0x3c,0x6d,0x3e],
     [0xef,0xbb,0xbf, 0x78, 0x3c,0x2f,0x6d,0x3e] ]
 
-/-- **Second defect of today's code (same cause, same fix).**  Even when every read boundary is a character
-boundary (every chunk well-formed UTF-8 on its own) the byte-level property is false: `QString::fromUtf8` drops
-a BOM at offset 0 of EVERY call, so a read that happens to start with U+FEFF ZERO WIDTH NO-BREAK SPACE (a legal
-XML character) loses it.  This is why `framing_bytes_split_independent_partial` needs `U8.Clean` and not just
-`isValid`.  Stops compiling (delete it) once `feedBytesCode := feedBytesStateful`. -/
-theorem C03_defect_zwnbsp_at_read_start :
-    ¬ ∀ (E : Type) (P : Parser E) (items : List (Item E)) (chunks : List Bytes) (cps : List Nat),
-        PrefixOracle P items → decode? chunks.flatten = some cps → toChars cps = textOf items →
-        (∀ c ∈ chunks, isValid c = true) →
-        events (runBytes (feedBytesCode P) chunks) = events (runBytes (feedBytesCode P) [chunks.flatten]) := by
-  intro h
-  have h1 := h (List Char) toyP zwnbspItems zwnbspChunks
-    (decodeLossy zwnbspChunks.flatten)
-    (checkOracle_sound _ _ (by decide +kernel)) (by decide +kernel) (by decide +kernel) (by decide +kernel)
-  revert h1
-  decide +kernel
+/-- a byte order mark in front of the stream, the first read ending inside it -/
+def bomChunks : List Bytes :=
+  [ [0xef, 0xbb], 0xbf :: defectChunks.flatten ]
 
-example : events (runBytes (feedBytesCode toyP) zwnbspChunks)
-      = [.streamOpen "stream".toList, .stanza "m:x".toList]
-    ∧ events (runBytes (feedBytesCode toyP) [zwnbspChunks.flatten])
+example : events (runBytes (feedBytesCode toyP) defectChunks)
+      = [.streamOpen "stream".toList, .stanza "m:ñ".toList]
+    ∧ events (runBytes (feedBytesCode toyP) zwnbspChunks)
       = [.streamOpen "stream".toList, .stanza "m:\uFEFFx".toList]
-    ∧ events (runBytes (feedBytesStateful toyP) zwnbspChunks)
-      = [.streamOpen "stream".toList, .stanza "m:\uFEFFx".toList] := by
+    ∧ events (runBytes (feedBytesCode toyP) bomChunks)
+      = [.streamOpen "stream".toList, .stanza "m:ñ".toList] := by
   decide +kernel
 
-/-! ### Non-vacuity: `PrefixOracle` is satisfiable, and the hypotheses of the byte-level theorems are met -/
+/-- what the code did before 49994ec on the same inputs (per-read decoding): text altered / character lost -/
+example : events (runBytes (feedBytesPerChunk toyP) defectChunks)
+      = [.streamOpen "stream".toList, .stanza "m:\uFFFD\uFFFD".toList]
+    ∧ events (runBytes (feedBytesPerChunk toyP) zwnbspChunks)
+      = [.streamOpen "stream".toList, .stanza "m:x".toList] := by
+  decide +kernel
+
+/-! ### Non-vacuity: `PrefixOracle` is satisfiable, and the hypotheses of the byte-level theorem are met -/
 
 /-- header, two stanzas with a keep-alive blank between them, closing tag -/
 def exItems : List (Item (List Char)) :=
@@ -211,13 +171,19 @@ example : (run toyP init ["<stream:stream><a/>".toList, " ".toList]).2.length = 
   decide +kernel
 
 example : PrefixOracle toyP defectItems := checkOracle_sound _ _ (by decide +kernel)
+example : PrefixOracle toyP zwnbspItems := checkOracle_sound _ _ (by decide +kernel)
 
-/-- hypotheses of `framing_bytes_split_independent_stateful` on the defect witness -/
+/-- hypotheses of `framing_bytes_split_independent` on the three byte-level examples (cut inside a character,
+U+FEFF as content, BOM in front of the stream) -/
 example : decode? defectChunks.flatten = some (decodeLossy defectChunks.flatten)
-    ∧ toChars (decodeLossy defectChunks.flatten) = textOf defectItems := by
+    ∧ toChars (dropBom1 (decodeLossy defectChunks.flatten)) = textOf defectItems
+    ∧ decode? zwnbspChunks.flatten = some (decodeLossy zwnbspChunks.flatten)
+    ∧ toChars (dropBom1 (decodeLossy zwnbspChunks.flatten)) = textOf zwnbspItems
+    ∧ decode? bomChunks.flatten = some (decodeLossy bomChunks.flatten)
+    ∧ toChars (dropBom1 (decodeLossy bomChunks.flatten)) = textOf defectItems := by
   decide +kernel
 
-/-- hypotheses of `framing_bytes_split_independent_partial`: the same bytes cut AFTER `ñ` -/
+/-- hypothesis of `utf8_perchunk_eq_iff_boundaries_partial`: chunks of whole characters -/
 example : (∀ c ∈ ([[0x3c,0x6d,0x3e,0xc3,0xb1], [0x3c,0x2f,0x6d,0x3e]] : List Bytes), U8.Clean c) := by
   intro c hc
   simp only [List.mem_cons, List.not_mem_nil, or_false] at hc
